@@ -149,4 +149,85 @@ theorem unrepaired_lookup_counterexample :
     lookupGeneric [['t', '.', 'o']] ['o'] = (false, ['o']) := by
   decide
 
+/-! ## names printed bare or quoted (`Printer.print_identifier_or_string_literal`)
+"parsing the text … yields equivalent IR": an attribute / property key, a `DictionaryAttr` key or a symbol
+name written WITHOUT quotes is read back by the lexer as the longest identifier prefix of what was written. -/
+
+private theorem takeDrop_of_all (p : Char → Bool) (l : List Char) (h : ∀ x ∈ l, p x = true) :
+    l.takeWhile p = l ∧ l.dropWhile p = [] := by
+  induction l with
+  | nil => simp
+  | cons a l ih =>
+    have ha := h a (by simp)
+    have := ih (fun x hx => h x (by simp [hx]))
+    simp [ha, this]
+
+private theorem all_of_dropWhile_nil (p : Char → Bool) (l : List Char) (h : l.dropWhile p = []) :
+    ∀ x ∈ l, p x = true := by
+  induction l with
+  | nil => simp
+  | cons a l ih =>
+    by_cases ha : p a = true
+    · simp only [List.dropWhile_cons, ha, if_true] at h
+      intro x hx
+      rcases List.mem_cons.mp hx with rfl | hx
+      · exact ha
+      · exact ih h x hx
+    · simp [ha] at h
+
+/-- the lexer reads a text back as exactly that name (nothing left over) if and only if the name passes the
+printer's test `isBare`: for every other name the unquoted spelling loses or splits characters, so it has
+to be printed as a string literal -/
+theorem lexBare_whole_iff (s : Str) : lexBare s = some (s, []) ↔ isBare s = true := by
+  cases s with
+  | nil => simp [lexBare, isBare]
+  | cons c cs =>
+    by_cases hc : isIdStart c = true
+    · simp only [lexBare, isBare, hc, if_true, Bool.true_and, List.all_eq_true, Option.some.injEq, Prod.mk.injEq,
+        List.cons.injEq, true_and]
+      constructor
+      · intro h x hx
+        exact all_of_dropWhile_nil _ _ h.2 x hx
+      · intro h
+        exact takeDrop_of_all _ _ h
+    · simp [lexBare, isBare, hc]
+
+/-- a bare name followed by anything that does not continue an identifier (` = `, `,`, `}`, a line break …)
+is read back as that name, the rest is left for the parser -/
+theorem lexBare_append (s rest : Str) (h : isBare s = true)
+    (hr : ∀ c ∈ rest.head?, isIdChar c = false) : lexBare (s ++ rest) = some (s, rest) := by
+  cases s with
+  | nil => simp [isBare] at h
+  | cons c cs =>
+    simp only [isBare, Bool.and_eq_true, List.all_eq_true] at h
+    have ht : (cs ++ rest).takeWhile isIdChar = cs := by
+      rw [List.takeWhile_append_of_pos h.2]
+      cases rest with
+      | nil => simp
+      | cons r rs => simp [hr r (by simp)]
+    have hd : (cs ++ rest).dropWhile isIdChar = rest := by
+      rw [List.dropWhile_append_of_pos h.2]
+      cases rest with
+      | nil => simp
+      | cons r rs => simp [hr r (by simp)]
+    simp [lexBare, h.1, ht, hd]
+
+/-- no bare name contains a line break or a blank (the lexer skips those between tokens) -/
+theorem isBare_no_space (s : Str) (h : isBare s = true) : '\n' ∉ s ∧ ' ' ∉ s ∧ '\t' ∉ s ∧ '\r' ∉ s := by
+  cases s with
+  | nil => simp [isBare] at h
+  | cons c cs =>
+    simp only [isBare, Bool.and_eq_true, List.all_eq_true] at h
+    refine ⟨?_, ?_, ?_, ?_⟩ <;>
+    · intro hm
+      rcases List.mem_cons.mp hm with rfl | hm
+      · exact absurd h.1 (by decide)
+      · exact absurd (h.2 _ hm) (by decide)
+
+/-- witness for a test that accepts a trailing line break (Python `$` instead of `fullmatch`): the name
+`k⏎` written unquoted comes back as `k` -/
+theorem trailing_newline_counterexample :
+    isBare ['k', '\n'] = false ∧ lexBare ['k', '\n'] = some (['k'], ['\n']) := by
+  decide
+
 end Xdsl.Verbatim
